@@ -143,6 +143,7 @@ def run(pid, mode, tier, seed, families=None, extra=None):
                                       pattern='restricted', route=case['route'], data=sub_in.tolist()))
     ops.LAYOUT = 'C'
     program_section(rep, algopy, rng, mode, tier, what)
+    driver_section(rep, algopy, rng, mode, tier, what)
     if extra is not None:
         extra(rep, algopy, rng, tier)
     # Coq model on the restricted runs (same machinery as C01, but reported under this property)
@@ -247,10 +248,70 @@ def program_section(rep, ap, rng, mode, tier, what):
             rep.violation('%s:program:%s' % (mode, side), 'generated program, %s sweep on %s: %s' % (side, what, why), dict(payload, why=why, side=side))
 
 
+VEC_FUNCS = [
+    ('A x * sin x', lambda ap, A, x: ap.dot(A, x) * ap.sin(x)),
+    ('exp(x) * (A x) + x*x', lambda ap, A, x: ap.exp(x) * ap.dot(A, x) + x * x),
+    ('A (x*x) - cos x', lambda ap, A, x: ap.dot(A, x * x) - ap.cos(x)),
+    ('rect: B x / (1 + x0*x0)', lambda ap, A, x: ap.dot(A[:2], x) / (1. + x[0] * x[0])),
+    ('rect: [A x ; x*x]', lambda ap, A, x: _stack(ap, ap.dot(A, x), x * x)),
+]
+
+
+def _stack(ap, a, b):
+    y = ap.zeros(a.shape[0] + b.shape[0], dtype=a)
+    y[:a.shape[0]] = a
+    y[a.shape[0]:] = b
+    return y
+
+
+def driver_section(rep, ap, rng, mode, tier, what):
+    """the graph driver that takes a UTPM argument itself: cg.jacobian(x) for a vector function (M >= 2 rows) on all directions /
+    all coefficients against the same driver on the restriction, and its zeroth coefficient against the plain-array driver"""
+    for it in range(24 if tier == 'quick' else 400):
+        N = rng.randint(2, 4)
+        name, f = VEC_FUNCS[it % len(VEC_FUNCS)]
+        A = numpy.array([[rng.randint(-4, 4) / 2 for _ in range(N)] for _ in range(N)])
+        D = rng.randint(1, 3) if mode == 'dirs' else rng.randint(2, 4)
+        P = rng.randint(2, 3) if mode == 'dirs' else rng.randint(1, 2)
+        x = progs.rand_utpm_data(rng, D, P, N)
+        k = rng.randrange(P) if mode == 'dirs' else rng.randint(1, D - 1)
+        rep.count('driver:function', name); rep.count('driver:P', P); rep.count('driver:D', D)
+        rep.case(('driver', name, A.tobytes().hex(), x.tobytes().hex(), k), True, sample=dict(check='cg.jacobian(UTPM)', function=name, D=D, P=P, restriction=k))
+        payload = dict(kind='driver', mode=mode, function=name, A=A.tolist(), x=x.tolist(), restriction=k)
+        try:
+            cg = ap.CGraph(); fx = ap.Function(ap.UTPM(x[:1, :1].copy())); fy = f(ap, A, fx); cg.trace_off()
+            cg.independentFunctionList = [fx]; cg.dependentFunctionList = [fy]
+            full = numpy.array(cg.jacobian(ap.UTPM(x.copy())).data, copy=True)
+            sub = numpy.array(cg.jacobian(ap.UTPM(cut(x, mode, k).copy())).data, copy=True)
+            plain = numpy.array(cg.jacobian(x[0, 0].copy()), copy=True)
+        except Exception as e:
+            rep.violation('%s:driver:exception' % mode, 'cg.jacobian with a UTPM argument raises %r' % (e,), dict(payload, exc=repr(e)))
+            continue
+        why = prog_close(full, sub, mode, k, 1e-9)
+        if why:
+            rep.violation('%s:driver:jacobian' % mode, 'cg.jacobian(UTPM) of %s on %s: %s' % (name, what, why), dict(payload, why=why))
+        elif plain.shape != full.shape[2:] or not numpy.allclose(full[0, 0], plain, rtol=1e-9, atol=1e-9):
+            rep.violation('%s:driver:jacobian:base' % mode, 'cg.jacobian(UTPM) of %s: coefficient 0 of direction 0 is not the Jacobian at that base point' % name, payload)
+
+
 def replay(pid, mode, path):
     pl = json.load(open(path))
     algopy = lib.import_algopy()
     rep = Report(pid, 'quick', pl.get('seed', 0))
+    if pl.get('kind') == 'driver':
+        f = dict(VEC_FUNCS)[pl['function']]; A = numpy.array(pl['A']); x = numpy.array(pl['x']); k = pl['restriction']
+        rep.case('replay', True, sample=dict(check='cg.jacobian(UTPM)', restriction=k))
+        try:
+            cg = algopy.CGraph(); fx = algopy.Function(algopy.UTPM(x[:1, :1].copy())); fy = f(algopy, A, fx); cg.trace_off()
+            cg.independentFunctionList = [fx]; cg.dependentFunctionList = [fy]
+            full = numpy.array(cg.jacobian(algopy.UTPM(x.copy())).data, copy=True)
+            sub = numpy.array(cg.jacobian(algopy.UTPM(cut(x, mode, k).copy())).data, copy=True)
+            why = prog_close(full, sub, mode, k, 1e-9)
+        except Exception as e:
+            why = repr(e)
+        if why:
+            rep.violation(pl.get('key', 'replay'), why, dict(pl, why=why))
+        return rep.finish()
     if pl.get('kind') == 'program':
         x = numpy.array(pl['x']); ybars = [numpy.array(y) for y in pl['ybar']]
         rep.case('replay', True, sample=dict(check='program', restriction=pl['restriction']))
